@@ -67,6 +67,20 @@ struct Keys {
         k.push_back(same8b);                       // 4: same bucket again, third hash
         k.push_back(other);                        // 5: the other bucket at capacity 2
         k.push_back(low16.empty() ? "zz" : low16); // 6: equal low 16 hash bits
+        // 7, 8: FULL hash collisions where one key is a proper prefix of the other (only the length tells them apart)
+        {
+            std::string zero(1, '\0');
+            if (H(zero) == H("")) {
+                k.push_back(zero); // "" vs "\0"
+            }
+            for (int c = 1; c < 256; c++) {
+                std::string s2 = std::string("a") + char(c);
+                if (H(s2) == h1) {
+                    k.push_back(s2); // "a" vs "a?"
+                    break;
+                }
+            }
+        }
     }
 };
 static const Keys &KEYS() {
@@ -586,7 +600,7 @@ int main(int argc, char **argv) {
         }
         plan.rule = "breadth-first over operation histories (depth " + std::to_string(depth) + ") on two registers of HArray<String,String> and "
                     "HList<String>; keys " + ks + "chosen with the real hash function (empty, embedded NUL, three keys in one bucket at "
-                    "capacities 2/4/8, one in the other bucket, one with equal low 16 hash bits); model: vector of live (key,value) in "
+                    "capacities 2/4/8, one in the other bucket, one with equal low 16 hash bits, and proper-prefix pairs with EQUAL full hashes); model: vector of live (key,value) in "
                     "first-insertion order; after every transition: lookups of all alphabet keys + an absent key by every lookup function, "
                     "key<->index agreement, live iteration order, ActualSize, and the structural invariants of the one-block table "
                     "(capacity power of two, each live item exactly once on the chain of Hash&(cap-1), chains acyclic, stored hash fresh)";
